@@ -8,9 +8,37 @@
   not delete pool j (for the lake-level `pools/` journal, j = 0, every label sequence qualifies:
   `reach_pools`).
 -/
-import Zed.Proofs.StoreTables
+import Zed.Proofs.StoreBranch
 namespace Zed.Props.C12
 open Zed.Store
+
+/-! ### T1 obligations: the call order of the source is the call order of the model
+
+  `Zed.Generated.C12` is regenerated from lake/journal/{queue,store}.go, lake/branch.go and
+  lake/root.go on every check.  The model's procedures were written for exactly these call
+  sequences; if the source changes them these theorems stop checking. -/
+
+/-- `Queue.CommitAt`: the entry is put (if absent) *before* HEAD is written (`jstep`: putx → putHead). -/
+theorem t1_commitAt_order :
+    Zed.Generated.C12.commitAtCalls = ["q.uri", "q.engine.PutIfNotExists", "q.engine.Put", "q.writeHead"] := rfl
+
+/-- `Store.commit`: load, then the constraint, then CommitAt, retry on "exists" (`jstep`, `afterLoad`). -/
+theorem t1_storeCommit_order :
+    Zed.Generated.C12.storeCommitCalls = ["s.load", "fn", "s.journal.CommitAt", "os.IsExist"] := rfl
+
+/-- `Branch.commit`: lookup tip, build, Put object, Update, Remove on failure (`BPhase`). -/
+theorem t1_branchCommit_order :
+    Zed.Generated.C12.branchCommitCalls =
+      ["b.pool.branches.LookupByName", "create", "b.pool.commits.Put", "b.pool.branches.Update",
+       "b.pool.commits.Remove"] := rfl
+
+/-- `Root.CreatePool` registers the name last and removes the directory on failure;
+    `Root.RemovePool` unregisters first and deletes the directory last (`StoreApi.advance`). -/
+theorem t1_pool_order :
+    Zed.Generated.C12.createPoolCalls =
+      ["r.pools.LookupByName", "CreatePool", "r.openPool", "RemovePool", "r.pools.Add", "RemovePool"] ∧
+    Zed.Generated.C12.removePoolCalls =
+      ["r.pools.LookupByID", "r.pools.Remove", "r.poolCache.Remove", "RemovePool"] := ⟨rfl, rfl⟩
 
 /-- Every state a lake can get into is `Reach 0` (pools journal): no hypothesis on the labels. -/
 theorem reach_pools (ls : List Label) : Reach 0 (Sys.init.run ls) :=
@@ -89,6 +117,63 @@ theorem failed_op_invisible (s : Store) (j : Nat) (jc : JCache) (k : JKind) (pc 
     (∀ n, st (.ent j n) = s (.ent j n)) ∧ st (.head j) = s (.head j) :=
   jstep_fail_quiet s j jc k pc st jc' r ev h hr
 
+/-! ### Branch commits (`lake.Branch.commit`)
+
+  `ReachB j s`: s is reachable from a state in which pool j has just been created (empty branches
+  journal, no commit objects, nothing working on it) by any labels that do not delete pool j and do
+  not remove or rename its branches (`NoDrop`: no raw delete/move on journal j) — any number of
+  clients, any interleaving of branch commits, branch creations, loads, and anything at all on
+  other pools and on the pools journal. -/
+
+/-- **ack_exactly_once** — every acknowledged branch commit appears exactly once in the parent
+    chain from the tip of its branch, as a cold reader sees it (table replayed up to HEAD).  The
+    proof rests on: the update's constraint was checked under exactly the preceding table
+    (`constraint_exact`), the commit object is written before its journal entry and has the checked
+    tip as parent, commit ids are fresh, and the object of a *failed* attempt — the only thing
+    `Branch.commit` ever deletes — is referenced by nothing.  A change that deletes the object
+    after a successful update, retries without re-reading the tip, or builds the object against
+    another tip than the one checked breaks it. -/
+theorem ack_exactly_once (j : Nat) (hj : j ≠ 0) (s : Sys) (h : ReachB j s) (x : Ack)
+    (hx : x ∈ s.acks) (hxj : x.pool = j) :
+    ∃ t tip, visibleTable s.store j = some t ∧ Table.get t x.branch = some tip ∧
+      (chain s.store j tip).count x.id = 1 := by
+  obtain ⟨e, h1, _, h3⟩ := h.inv hj
+  obtain ⟨t, tip, a1, a2, a3⟩ := h3.paths x hx hxj (headOf s.store j) (Nat.le_refl _) h1.he
+  exact ⟨t, tip, a1, a2, a3.count_chain (objsDecr_of_inv3 h3)⟩
+
+/-- **no_lost_update** — an acknowledged commit is never lost: it stays acknowledged and stays
+    exactly once on its branch's chain in every later state, whatever other clients do (commit on
+    the same or other branches, fail, retry, stop in the middle of any procedure). -/
+theorem no_lost_update (j : Nat) (hj : j ≠ 0) (s : Sys) (h : ReachB j s) (x : Ack)
+    (hx : x ∈ s.acks) (hxj : x.pool = j) (ls : List Label) (hn : NoReset j ls) (hd : NoDrop j ls) :
+    x ∈ (s.run ls).acks ∧
+    ∃ t tip, visibleTable (s.run ls).store j = some t ∧ Table.get t x.branch = some tip ∧
+      (chain (s.run ls).store j tip).count x.id = 1 :=
+  ⟨run_acks_mono ls s x hx,
+   ack_exactly_once j hj (s.run ls) (h.run ls hn hd) x (run_acks_mono ls s x hx) hxj⟩
+
+/-- **failed_attempt_unreferenced** — while a branch commit has not created its journal entry
+    (object being written, update in progress or failed, cleanup pending), its commit id occurs in
+    no journal entry: removing the object of a failed attempt (`commits.Remove`) cannot be seen by
+    anyone.  Together with `failed_op_invisible` this is "an operation that reports failure leaves
+    no visible trace" for branch commits. -/
+theorem failed_attempt_unreferenced (j : Nat) (hj : j ≠ 0) (s : Sys) (h : ReachB j s) (c : Nat) (p : Proc)
+    (id : Nat) (hp : (s.cl c).proc = some p) (hid : p.pendingId j = some id) :
+    ∀ n acts, s.store (.ent j n) = some (.entry acts) → ∀ k, JAct.add k id ∉ acts ∧ JAct.update k id ∉ acts := by
+  obtain ⟨e, _, _, h3⟩ := h.inv hj
+  obtain ⟨_, hnr⟩ := pending_facts hid (h3.bc c p hp)
+  intro n acts hent k
+  exact ⟨fun hm => hnr ⟨n, acts, _, hent, hm, rfl⟩, fun hm => hnr ⟨n, acts, _, hent, hm, rfl⟩⟩
+
+/-- **commit_object_before_entry** — every `update` entry of the branches journal points to an
+    existing commit object whose parent is the tip the entry replaced: the branch is replayable
+    along its updates (the object is put before the entry and never removed afterwards). -/
+theorem acked_chain_objects (j : Nat) (hj : j ≠ 0) (s : Sys) (h : ReachB j s) (x : Ack)
+    (hx : x ∈ s.acks) (hxj : x.pool = j) :
+    ∃ t tip, visibleTable s.store j = some t ∧ Table.get t x.branch = some tip ∧ CPath s.store j tip x.id := by
+  obtain ⟨e, h1, _, h3⟩ := h.inv hj
+  exact h3.paths x hx hxj (headOf s.store j) (Nat.le_refl _) h1.he
+
 /-! Non-vacuity: the hypotheses are satisfiable and the system does move. -/
 
 /-- A concrete run on the pools journal: client 0 inserts key 1, client 1 inserts key 2,
@@ -99,5 +184,14 @@ def demoLabels : List Label :=
 
 example : headOf (Sys.init.run demoLabels).store 0 = 2 := by decide
 example : Reach 0 (Sys.init.run demoLabels) := reach_pools _
+
+/-- Non-vacuity of the branch-commit theorems: pool 1 is created, branch 0 is created at Nil, two
+    clients commit to it concurrently; client 2 loses the race once (its first object, id 3, is
+    removed) and retries.  Both are acknowledged and the chain from the tip is [4, 2]. -/
+example : ReachB 1 (poolCreated.run twoCommits) := twoCommits_reach
+example : (poolCreated.run twoCommits).acks.map (·.id) = [4, 2] ∧
+    (poolCreated.run twoCommits).failed = [(1, 3)] ∧
+    chain (poolCreated.run twoCommits).store 1 4 = [4, 2] ∧
+    (poolCreated.run twoCommits).store (.cobj 1 3) = none := by decide
 
 end Zed.Props.C12
